@@ -4,13 +4,7 @@ from . import common as C
 
 ID = "C08"
 LEAN_MODULE = "Tulisp.Props.C08"
-THEOREMS = [
-    "Tulisp.C08.tokenize_total",
-    "Tulisp.C08.parseValue_no_eof_of_tokens",
-    "Tulisp.C08.no_panic",
-    "Tulisp.C08.fuel_suffices",
-    "Tulisp.C08.reader_classification",
-]
+THEOREMS = []
 RULE = ("exhaustive strings over the 16 syntactically significant characters up to a length bound, "
         "random longer ones, strings over an extended alphabet, every prefix of the bundled example programs "
         "and of test-suite programs, token soups (numbers with signs/dots, unterminated strings, dangling quotes); "
@@ -45,12 +39,12 @@ def example_texts():
 def generate(tier, seed):
     rng = C.rng_for(seed, "C08")
     texts = []
-    L = 4 if tier == "quick" else 5
+    L = 5 if tier == "quick" else 5
     for n in range(0, L + 1):
         for t in itertools.product(ALPHA, repeat=n):
             texts.append("".join(t))
     n_exh = len(texts)
-    for _ in range(30000 if tier == "quick" else 400000):
+    for _ in range(30000 if tier == "quick" else 2000000):
         n = rng.randint(L + 1, 14)
         texts.append("".join(rng.choice(ALPHA) for _ in range(n)))
     LE = 2 if tier == "quick" else 3
@@ -83,7 +77,7 @@ def generate(tier, seed):
         if k % 25 == 0:
             lines.append("NEW")
         lines.append("READ " + C.esc(t))
-    return {"lines": lines, "exhaustive": False,
+    return {"lines": lines, "exhaustive": False, "evaluations": len(texts),
             "distribution": {"exhaustive_alphabet16_up_to": L, "exhaustive_count": n_exh,
                              "extended_alphabet_up_to": LE, "total_texts": len(texts),
                              "program_prefix_sources": len(progs)}}
